@@ -310,10 +310,20 @@ def run(tier, seed):
         ),
         "samples": samples,
     }
+    from .. import kwforms
+
+    for w in kwforms.check("number"):
+        violations.append({"key": "keyword-form:" + w.split(":")[0][:60], "what": w, "case": {"kwforms": True}})
+    coverage["keyword_call_forms_checked"] = True
     return {"coverage": coverage, "violations": violations}
 
 
 def replay(case):
+    if isinstance(case, dict) and case.get("kwforms"):
+        from .. import kwforms
+
+        bad = kwforms.check("number")
+        return bad[0] if bad else None
     loader.install_shims()
     enc, dec = _codec()
     if case["kind"] == "forms":
